@@ -12,6 +12,10 @@ pub struct AllocTracker {
 #[derive(Debug)]
 struct AllocTrackerInner {
     bytes_left: AtomicUsize,
+    #[cfg(jxl_oxide_verif)]
+    verif_alloc_calls: AtomicUsize,
+    #[cfg(jxl_oxide_verif)]
+    verif_fail_from: AtomicUsize,
 }
 
 impl AllocTracker {
@@ -20,6 +24,10 @@ impl AllocTracker {
         Self {
             inner: Arc::new(AllocTrackerInner {
                 bytes_left: AtomicUsize::new(bytes_left),
+                #[cfg(jxl_oxide_verif)]
+                verif_alloc_calls: AtomicUsize::new(0),
+                #[cfg(jxl_oxide_verif)]
+                verif_fail_from: AtomicUsize::new(usize::MAX),
             }),
         }
     }
@@ -29,6 +37,14 @@ impl AllocTracker {
     /// Returns an error if the allocation exceeds the current limit.
     pub fn alloc<T>(&self, count: usize) -> Result<AllocHandle, crate::OutOfMemory> {
         let bytes = count * std::mem::size_of::<T>();
+        #[cfg(jxl_oxide_verif)]
+        {
+            // Verification hook: fail the k-th and every later tracked allocation.
+            let n = self.inner.verif_alloc_calls.fetch_add(1, Ordering::Relaxed);
+            if n >= self.inner.verif_fail_from.load(Ordering::Relaxed) {
+                return Err(crate::OutOfMemory::new(bytes));
+            }
+        }
         let result = self.inner.bytes_left.fetch_update(
             Ordering::Relaxed,
             Ordering::Relaxed,
@@ -71,6 +87,25 @@ impl AllocTracker {
         } else {
             Err(crate::OutOfMemory::new(by_bytes))
         }
+    }
+}
+
+/// Verification hooks (only with `--cfg jxl_oxide_verif`).
+#[cfg(jxl_oxide_verif)]
+impl AllocTracker {
+    /// Number of `alloc` calls made so far.
+    pub fn verif_alloc_calls(&self) -> usize {
+        self.inner.verif_alloc_calls.load(Ordering::Relaxed)
+    }
+
+    /// Makes every `alloc` call whose 0-based index is `>= k` fail (`usize::MAX` disables).
+    pub fn verif_set_fail_from(&self, k: usize) {
+        self.inner.verif_fail_from.store(k, Ordering::Relaxed);
+    }
+
+    /// Bytes currently available.
+    pub fn verif_bytes_left(&self) -> usize {
+        self.inner.bytes_left.load(Ordering::Relaxed)
     }
 }
 
